@@ -1,6 +1,7 @@
 """Planner plugin: the two TetriSched formulations
 (schedulers/tetrisched_gurobi_scheduler.py, Gurobi back-end, and
-schedulers/tetrisched_cplex_scheduler.py, docplex/CPLEX back-end, non-batching mode)
+schedulers/tetrisched_cplex_scheduler.py, docplex/CPLEX back-end, non-batching mode here,
+batching mode (`BatchTask`) in `_tetri_batch.py`, which `run` / `search` / `replay` call for C10 and C12)
 for the planner clauses of C10, C11 (Gurobi only), C12 and C14.
 
 For every generated invocation the plugin
@@ -68,6 +69,7 @@ def _repo():
     from utils import EventTime
     from workers import Worker, WorkerPool, WorkerPools
     from workload import (
+        BatchStrategy,
         ExecutionStrategies,
         ExecutionStrategy,
         Job,
@@ -137,20 +139,29 @@ def build_world(spec: dict) -> World:
     w.tasks = {}
     w.task_list = []
     graphs = {}
+
+    def mk_strategies(strats):
+        return R["ExecutionStrategies"](
+            [
+                R["ExecutionStrategy"](
+                    resources=Resources(resource_vector={Resource(name=n, _id="any"): q for n, q in s["req"]}),
+                    batch_size=s.get("batch", 1),
+                    runtime=US(s["runtime"]),
+                )
+                for s in strats
+            ]
+        )
+
+    # batching worlds: WorkProfiles shared by several tasks (`t["profile"]` = index into spec["profiles"])
+    w.profiles = [R["WorkProfile"](name=p["name"], execution_strategies=mk_strategies(p["strats"])) for p in spec.get("profiles", [])]
+    w.prior_batches = {}  # prev["batch"] id -> the BatchStrategy object shared by the members of an earlier batch
     for g in spec["graphs"]:
         tasks = []
         for t in g["tasks"]:
-            strategies = R["ExecutionStrategies"](
-                [
-                    R["ExecutionStrategy"](
-                        resources=Resources(resource_vector={Resource(name=n, _id="any"): q for n, q in s["req"]}),
-                        batch_size=s.get("batch", 1),
-                        runtime=US(s["runtime"]),
-                    )
-                    for s in t["strats"]
-                ]
-            )
-            profile = R["WorkProfile"](name=f"{t['name']}_{g['name']}_profile", execution_strategies=strategies)
+            if "profile" in t:
+                profile = w.profiles[t["profile"]]
+            else:
+                profile = R["WorkProfile"](name=f"{t['name']}_{g['name']}_profile", execution_strategies=mk_strategies(t["strats"]))
             task = R["Task"](
                 name=t["name"],
                 task_graph=g["name"],
@@ -179,6 +190,11 @@ def build_world(spec: dict) -> World:
         prev = t["prev"]
         worker, pool = w.workers[prev["w"]]
         strategy = task.available_execution_strategies[prev["s"]]
+        if prev.get("batch") is not None:
+            # placed by an earlier batching invocation: the members of one batch share one BatchStrategy
+            if prev["batch"] not in w.prior_batches:
+                w.prior_batches[prev["batch"]] = R["BatchStrategy"](execution_strategy=strategy)
+            strategy = w.prior_batches[prev["batch"]]
         placement = R["Placement"].create_task_placement(
             task=task,
             placement_time=US(prev["time"]),
@@ -213,7 +229,7 @@ def build_world(spec: dict) -> World:
     if w.backend == "gurobi":
         w.scheduler = R["TetriSchedGurobiScheduler"](release_taskgraphs=f["release_taskgraphs"], **kw)
     else:
-        w.scheduler = R["TetriSchedCPLEXScheduler"](**kw)
+        w.scheduler = R["TetriSchedCPLEXScheduler"](batching=bool(spec.get("batching", False)), **kw)
     return w
 
 
@@ -272,11 +288,22 @@ def real_schedule(w: World) -> dict:
     def add_wrapper(sim_time, optimizer, tasks_to_be_scheduled, workers):
         rec["tasks"] = list(tasks_to_be_scheduled)
         rec["workers"] = dict(workers)
-        return orig_add(sim_time=sim_time, optimizer=optimizer, tasks_to_be_scheduled=tasks_to_be_scheduled, workers=workers)
+        out = orig_add(sim_time=sim_time, optimizer=optimizer, tasks_to_be_scheduled=tasks_to_be_scheduled, workers=workers)
+        rec["tvars"] = out  # name -> TaskOptimizerVariables (batching: one per BatchTask), dict order
+        return out
 
     w.workload.get_schedulable_tasks = get_wrapper
     w.workload.filter = filter_wrapper
     sched._add_variables = add_wrapper
+    orig_batch = getattr(sched, "_create_batch_task_variables", None)
+    if orig_batch is not None:
+
+        def batch_wrapper(sim_time, plan_ahead, optimizer, profile, tasks, workers):
+            # `tasks` is a Python set: its iteration order (hash order) is an input of the batching glue
+            rec.setdefault("set_order", []).append((profile, list(tasks)))
+            return orig_batch(sim_time=sim_time, plan_ahead=plan_ahead, optimizer=optimizer, profile=profile, tasks=tasks, workers=workers)
+
+        sched._create_batch_task_variables = batch_wrapper
     err = None
     placements = None
     model = None
@@ -323,6 +350,8 @@ def real_schedule(w: World) -> dict:
     del w.workload.get_schedulable_tasks
     del w.workload.filter
     del sched._add_variables
+    if orig_batch is not None:
+        del sched._create_batch_task_variables
     rec.update(placements=placements, err=err, pure=(before == after), model=model, solution=solution, n_models=n_models)
     return rec
 
@@ -449,6 +478,10 @@ def name_canon(rec: dict):
     for task in rec.get("tasks", []):
         for i, s in enumerate(task.available_execution_strategies):
             sid[(task.unique_name, s.id)] = i
+    for name, tv in (rec.get("tvars") or {}).items():
+        if hasattr(tv.task, "tasks"):  # batching mode: a BatchTask has one strategy, its BatchStrategy
+            for i, s in enumerate(tv.task.available_execution_strategies):
+                sid[(name, s.id)] = i
 
     def canon(n: str) -> str:
         m = _CELL.match(n)
@@ -514,8 +547,10 @@ def canon_gurobi(rec: dict, den: int) -> dict:
     return {"vars": sorted(vars_), "constrs": sorted(json.dumps(c) for c in cons), "obj": obj, "sense": int(m.ModelSense), "labels": labs}
 
 
-def canon_cplex(rec: dict, den: int) -> dict:
-    """Canonical form of the captured docplex model (walked through its public iterators)."""
+def canon_cplex(rec: dict, den: int, obj_const: Fraction | None = None) -> dict:
+    """Canonical form of the captured docplex model (walked through its public iterators).
+    `obj_const` (batching mode): the objective constant is a sum of interpolated float priorities, not a
+    multiple of 1/den; it is compared with the exact fraction the model computes."""
     m = rec["model"]
     cn = name_canon(rec)
     vs = list(m.iter_variables())
@@ -539,12 +574,16 @@ def canon_cplex(rec: dict, den: int) -> dict:
             continue
         n_lin += 1
         le, re_ = c.left_expr, c.right_expr
-        cons.append(["lin", c.name, _canon_terms(terms(le) + terms(re_, -1)), sense[c.sense.name], _fs(const(re_) - const(le))])
+        cons.append(["lin", c.name or "", _canon_terms(terms(le) + terms(re_, -1)), sense[c.sense.name], _fs(const(re_) - const(le))])
     if n_lin != m.number_of_constraints:
         cons.append(["other", "constraint-count", m.number_of_constraints])
     o = m.objective_expr
     if o.is_quad_expr() if hasattr(o, "is_quad_expr") else False:
         obj = ["quadratic objective"]
+    elif obj_const is not None:
+        k = float(o.get_constant() if hasattr(o, "get_constant") else o.constant)
+        close = abs(k - float(obj_const)) <= 1e-9 * max(1.0, abs(k))
+        obj = [_canon_terms(terms(o)), _fs(obj_const) if close else ["float", k]]
     else:
         obj = [_canon_terms(terms(o)), _fs(const(o))]
     return {"vars": sorted(vars_), "constrs": sorted(json.dumps(c) for c in cons), "obj": obj, "sense": -1 if m.is_maximized() else 1, "labels": labs}
@@ -1050,8 +1089,14 @@ def run_case(spec: dict):
     case = None
     rec["solved"] = solved(rec) if rec["err"] is None else False
     if rec.get("offered") is not None:
-        rec["inst"] = extract_inst(w, rec)
-        case = {"suite": SUITE, "inst": rec["inst"], "sigma": None}
+        if spec.get("batching"):
+            from harness.planners import _tetri_batch
+
+            rec["inst"] = _tetri_batch.extract_inst(w, rec)
+        else:
+            rec["inst"] = extract_inst(w, rec)
+        if rec["inst"] is not None:
+            case = {"suite": SUITE, "inst": rec["inst"], "sigma": None}
     return w, rec, case
 
 
@@ -1723,6 +1768,10 @@ def run(prop: str, chk, rng, tier: str) -> list[str]:
         _run_oracles(prop, chk, spec, w, rec, reply, reply2)
         release_model(rec)
     chk.extra.setdefault("planner_wall_s", {})[f"tetri/{prop}"] = round(_time.time() - t0, 1)
+    # TetriSched-CPLEX with batching=True (BatchTask glue): own generator, model (`genB`) and oracles
+    from harness.planners import _tetri_batch
+
+    disagreements += _tetri_batch.run(prop, chk, rng, tier)
     return disagreements
 
 
@@ -1741,11 +1790,18 @@ def search(prop: str, chk, rng, tier: str) -> None:
                 _run_oracles(prop, chk, spec, w, rec, None, None, found_input=True)
         finally:
             release_model(rec)
+    from harness.planners import _tetri_batch
+
+    _tetri_batch.search(prop, chk, rng, tier)
 
 
 def replay(rp: dict) -> int:
     """Re-run one replay against the real code alone. 1 = the failure reproduces."""
     spec, prop = rp["spec"], rp["prop"]
+    if spec.get("batching"):
+        from harness.planners import _tetri_batch
+
+        return _tetri_batch.replay(rp)
     w, rec, case = _quiet_schedule(spec)
     try:
         if prop in ("C10", "C11", "C12"):
